@@ -39,12 +39,19 @@ def sqrt_ok(prec, rnd, x, r):
         return v * v <= x < up * up
     if rnd in ('c', 'u'):
         return dn * dn < x <= v * v
-    # nearest: x between the squared midpoints; ties impossible unless exact (midpoint^2 needs 2p+2 bits ... still check)
+    # nearest: x between the squared midpoints; on an exact tie the result must be the "evener" of the two
+    # neighbours (larger 2-adic valuation), which is the rule that also works at precision 1
     mu = (v + up) / 2
     md = (v + dn) / 2
-    lo_ok = md * md < x or (md * md == x and M % 2 == 0)
-    hi_ok = x < mu * mu or (x == mu * mu and M % 2 == 0)
+    lo_ok = md * md < x or (md * md == x and _v2(v) > _v2(dn))
+    hi_ok = x < mu * mu or (x == mu * mu and _v2(v) > _v2(up))
     return lo_ok and hi_ok
+
+
+def _v2(q):
+    """2-adic valuation of a nonzero rational"""
+    n, d = q.numerator, q.denominator
+    return ((n & -n).bit_length() - 1) - ((d & -d).bit_length() - 1)
 
 
 def _p2(e):
